@@ -233,7 +233,10 @@ def gen_programs(ctx, n):
     tries = 0
     while len(out) < n and tries < n * 20:
         tries += 1
-        T = G.gen_type(rng, rng.choice([0, 1, 2, 3]), allow_any=False, allow_null=False)
+        # a share of the target types has `any` components (never `any` itself): the rest of such a type is validated all the same
+        T = G.gen_type(rng, rng.choice([0, 1, 2, 3]), allow_any=rng.random() < 0.35, allow_null=False)
+        if T == "any":
+            continue
         ts = G.hms_type(T)
         if ts is None:
             continue
@@ -369,7 +372,10 @@ def gen_host(ctx, n):
     tries = 0
     while len(out) < n and tries < n * 20:
         tries += 1
-        T = G.gen_type(rng, rng.choice([0, 1, 2, 3]), allow_any=False, allow_null=False)
+        # a share of the target types has `any` components (never `any` itself): the rest of such a type is validated all the same
+        T = G.gen_type(rng, rng.choice([0, 1, 2, 3]), allow_any=rng.random() < 0.35, allow_null=False)
+        if T == "any":
+            continue
         ts = G.hms_type(T)
         if ts is None or T == "anyobj":      # a top-level any-object return value is dropped by the VM (V17, C16's finding)
             continue
